@@ -7,7 +7,7 @@ git apply "$1" || { echo "patch does not apply"; exit 2; }
 cd /verif
 cp evidence/$2.json /tmp/evidence-$2.keep 2>/dev/null
 ls replays > /tmp/replays-before-$2.txt
-VERIF_RUN_TIMEOUT_S=120 ./check "$2" "${3:-quick}" 2>&1 | grep -v '^{' | grep "verifsim: runs\|VIOLATION\|HARNESS\|detail\|KNOWN" | cut -c1-500
+VERIF_RUN_TIMEOUT_S=900 ./check "$2" "${3:-quick}" 2>&1 | grep -v '^{' | grep "verifsim: runs\|VIOLATION\|HARNESS\|detail\|KNOWN" | cut -c1-500
 git -C /repo checkout -- .
 [ -f /tmp/evidence-$2.keep ] && mv /tmp/evidence-$2.keep evidence/$2.json
 for f in $(ls replays); do grep -qx "$f" /tmp/replays-before-$2.txt || rm -f "replays/$f"; done
